@@ -132,7 +132,7 @@ pub fn gen(tier: &str, seed: u64, out: &mut dyn FnMut(Value)) {
         });
     }
     // wide alphabet, random strings of 1..7 tokens
-    let n = if thorough { 300000 } else { 30000 };
+    let n = if thorough { 1500000 } else { 30000 };
     for _ in 0..n {
         let k = 1 + rng.below(7);
         let toks: Vec<&str> = (0..k).map(|_| *rng.pick(&COND_TOKS_WIDE)).collect();
@@ -144,7 +144,7 @@ pub fn gen(tier: &str, seed: u64, out: &mut dyn FnMut(Value)) {
         out(cond_case(s, "cond random wide"));
     }
     // valid expressions, then one token inserted / deleted / duplicated / appended
-    let n = if thorough { 60000 } else { 8000 };
+    let n = if thorough { 300000 } else { 8000 };
     for _ in 0..n {
         let d = 1 + rng.below(4);
         let f = crate::props::c02::random_form(&mut rng, d);
@@ -194,7 +194,7 @@ pub fn gen(tier: &str, seed: u64, out: &mut dyn FnMut(Value)) {
             }
         });
     }
-    let n = if thorough { 400000 } else { 40000 };
+    let n = if thorough { 2000000 } else { 40000 };
     for _ in 0..n {
         let k = 3 + rng.below(4);
         let toks: Vec<&str> = (0..k).map(|_| *rng.pick(&MATCH_TOKS)).collect();
